@@ -106,6 +106,10 @@ type summary struct {
 	Stalls      uint64            `json:"stalls"`
 	StallOps    uint64            `json:"ops_completed_during_stall"`
 	LockWaits   uint64            `json:"lock_waits"`
+	LibGo       uint64            `json:"library_goroutines"`
+	ChanOps     uint64            `json:"channel_ops"`
+	ChanWaits   uint64            `json:"channel_waits"`
+	Poison      string            `json:"poison,omitempty"`
 	LateSpawns  uint64            `json:"late_spawns"`
 	Publishes   uint64            `json:"publishes"`
 	Capped      uint64            `json:"capped_runs"`
